@@ -173,6 +173,17 @@ def audit(ctx, theorem_files, extra_grep_files=()):
     mods = [module_of(f) for f in theorem_files]
     ok, log = lake_build(mods + ['driver_' + ctx.pid.lower()])
     ctx.proof['build_ok'] = ok
+    # keep a run-private copy of the driver built from *this* run's generated files (another run may rebuild it after the lock is released)
+    try:
+        src = driver_path(ctx.pid)
+        if os.path.exists(src):
+            os.makedirs(os.path.join(LEAN, '.lake', 'run'), exist_ok=True)
+            dst = os.path.join(LEAN, '.lake', 'run', f'driver_{ctx.pid.lower()}_{os.getpid()}')
+            import shutil
+            shutil.copy2(src, dst)
+            PRIVATE_DRIVER[ctx.pid.upper()] = dst
+    except OSError:
+        pass
     ctx.proof['build_log'] = log[-4000:] if not ok else ''
     # grep (comments stripped) over the theorem files and everything they import from this project
     files = set(theorem_files) | set(extra_grep_files)
@@ -254,6 +265,7 @@ def audit(ctx, theorem_files, extra_grep_files=()):
 
 
 _driver = None
+PRIVATE_DRIVER = {}
 
 def driver_path(pid):
     return os.path.join(LEAN, '.lake', 'build', 'bin', 'driver_' + pid.lower())
@@ -263,7 +275,7 @@ def run_model(lines, timeout=3000, pid=None):
     """pipe operation lines (`<pid> <op> <args…>`) through the compiled Lean driver of that property, return the output lines"""
     if pid is None:
         pid = lines[0].split(' ')[0] if lines else 'C08'
-    exe = driver_path(pid)
+    exe = PRIVATE_DRIVER.get(pid.upper(), driver_path(pid))
     if not lines:
         return []
     if not os.path.exists(exe):
@@ -388,6 +400,11 @@ def finish(ctx, proof_ok, level='proof', checker_cmd='', trusted=None, rule=''):
     os.makedirs(EVID, exist_ok=True)
     with open(os.path.join(EVID, f'{ctx.pid}.json'), 'w') as fh:
         json.dump(ev, fh, indent=1, default=str)
+    for pth in PRIVATE_DRIVER.values():
+        try:
+            os.remove(pth)
+        except OSError:
+            pass
     for path, suffix in violations:
         print(f'VIOLATION property={ctx.pid} replay={os.path.relpath(path, VERIF)}{suffix}')
     print(f'[{ctx.pid}] tier={ctx.tier} seed={ctx.seed} theorems {ctx.proof["discharged"]}/{ctx.proof["obligations"]} '
